@@ -69,6 +69,7 @@ type VC struct {
 	curPos   token.Pos
 	errs     []string
 	stable   []*Shape // locations unknown calls are assumed not to touch
+	inQuant  int      // >0 while evaluating under a quantifier: terms mention bound variables
 }
 
 func newVC(e *Engine, fn *ssa.Function, c *Contract) *VC {
@@ -112,7 +113,7 @@ func (vc *VC) note(s string) { vc.notes[s]++ }
 
 // name a term if it is large
 func (vc *VC) define(prefix, sort string, t Term) Term {
-	if len(t) <= 160 {
+	if len(t) <= 160 || vc.inQuant > 0 {
 		return t
 	}
 	n := vc.fresh(prefix, sort)
@@ -128,7 +129,7 @@ func (vc *VC) assume(st *State, t Term) {
 }
 
 func (vc *VC) assumeAlways(t Term) {
-	if t == "true" {
+	if t == "true" || vc.inQuant > 0 {
 		return
 	}
 	vc.emit("(assert " + t + ")")
